@@ -91,6 +91,10 @@ def run(tier, seed):
             pres = codec.canon_pres(G, 1, v, rng.choice(["named", "rust"]))
             ser_cmds.append({"op": "so_ser", "id": len(ser_cmds), "schema": {"nodes": G}, "pres": pres, "via_writer": rng.random() < 0.5})
             ser_meta.append((t, G, v))
+            # the same through a sink that accepts a few bytes per call / is interrupted: what it received is what was written
+            sched = rng.choice([[1], [3], [9], [1, "interrupted", 2], [5, 5, "interrupted", 1]])
+            ser_cmds.append({"op": "so_ser", "id": len(ser_cmds), "schema": {"nodes": G}, "pres": pres, "sink": sched, "repeat_last": rng.random() < 0.7})
+            ser_meta.append((t, G, v))
         # a presentation that does not fit: must fail, nothing to decode
         ser_cmds.append({"op": "so_ser", "id": len(ser_cmds), "schema": {"nodes": G}, "pres": {"p": "tuple", "es": [{"p": "fail"}]}})
         ser_meta.append((t, G, None))
@@ -105,7 +109,7 @@ def run(tier, seed):
         readers = [{"kind": "slice"}, {"kind": "chunks", "sched": [1]}, {"kind": "chunks", "sched": [rng.randrange(2, 12)]}]
         # intact, followed by garbage, truncated at every header length and a few datum lengths, every header byte corrupted
         variants = [("intact", b), ("trailing", b + [0, 255])] + [(f"cut@{n}", b[:n]) for n in list(range(0, 11)) + [len(b) - 1]]
-        for i in range(10):
+        for i in range(min(10, len(b))):          # (a message shorter than its header is judged by TLC as a so_ser event)
             for m in (1, 128):
                 bb = list(b)
                 bb[i] ^= m
